@@ -1120,6 +1120,41 @@ def dyn_de_arm(kind, body, what):
     return "(%s, DDA %s [%s] %s)" % (coq_str(kind), take, '; '.join(steps), final)
 
 
+def norm_arm_key(pat):
+    """a `match ty` arm pattern, compacted, with the identifiers it binds replaced by their position
+    (so that renaming a pattern binding does not change the key); returns (key, bound names)"""
+    c = re.sub(r'\s+', '', pat)
+    names = []
+
+    def idx(n):
+        if n not in names:
+            names.append(n)
+        return '#%d' % names.index(n)
+
+    def walk(t):
+        # alternatives
+        parts = split_top(t, '|') if '|' in t else [t]
+        if len(parts) > 1:
+            return '|'.join(walk(x) for x in parts)
+        m = re.match(r'^([A-Za-z_][\w:]*)\((.*)\)$', t)
+        if m:
+            return '%s(%s)' % (m.group(1), ','.join(walk(x) for x in split_top(m.group(2))))
+        m = re.match(r'^([A-Za-z_][\w:]*)\{(.*)\}$', t)
+        if m:
+            items = []
+            for it in split_top(m.group(2)):
+                if ':' in it and not it.startswith('::'):
+                    f, sub = it.split(':', 1)
+                    items.append('%s:%s' % (f, walk(sub)))
+                else:
+                    items.append('%s:%s' % (it, idx(it)))       # shorthand `field` binds `field`
+            return '%s{%s}' % (m.group(1), ','.join(items))
+        if re.match(r'^[a-z][a-z0-9_]*$', t):
+            return idx(t)
+        return t
+    return walk(c), names
+
+
 DYN_SCALARS = ['Bool', 'I8', 'U8', 'I16', 'I32', 'I64', 'I128', 'U16', 'U32', 'U64', 'U128', 'Usize', 'F32', 'F64']
 
 
@@ -1475,7 +1510,7 @@ def gen_dyn_composite(src, attempt, match_template, tokenize):
                 m = re.match(r'^(.*?)=>\s*(.*)$', arm.strip(), re.S)
                 if not m:
                     raise Untranslatable("dyn %s: arm `%s`" % (fname, arm[:60]))
-                key, b = compact(m.group(1)), m.group(2).strip()
+                key, b = norm_arm_key(m.group(1))[0], m.group(2).strip()
                 if b.startswith('{') and b.endswith('}'):
                     b = b[1:-1]
                 arms[key] = b
